@@ -142,6 +142,12 @@ SAFE_BUILTINS = {
     "abs": abs,
     "hash": hash,
     "frozenset": frozenset,
+    "issubclass": issubclass,
+    "vars": vars,
+    "dir": dir,
+    "callable": callable,
+    "iter": iter,
+    "print": lambda *a, **k: None,
 }
 
 
